@@ -170,3 +170,113 @@ Proof.
       try (now rewrite VC). }
   rewrite B. rewrite IP. reflexivity.
 Qed.
+
+(** * the error algebra: text constructors only yield an object or a documented error (C20) *)
+Definition documented {A} (r : res A) : Prop :=
+  match r with Crash _ => False | _ => True end.
+
+Lemma bind_documented {A B} (r : res A) (f : A -> res B) :
+  documented r -> (forall a, documented (f a)) -> documented (bind r f).
+Proof. destruct r; cbn; auto. Qed.
+
+Lemma items_to_ints_documented tbl l : documented (items_to_ints tbl l).
+Proof.
+  induction l as [|x t IH]; cbn [items_to_ints]; [exact I|].
+  apply bind_documented.
+  - destruct (undec x); [exact I|]. destruct tbl as [tb|]; [|exact I].
+    unfold parse_port_item. destruct (undec x); [exact I|]. destruct (assoc_str x tb); [|exact I].
+    destruct (N.eqb n 0); exact I.
+  - intros n. apply bind_documented; [exact IH|]. intros; exact I.
+Qed.
+
+Lemma items_to_ints_length tbl l r : items_to_ints tbl l = Ok r -> length r = length l.
+Proof.
+  revert r. induction l as [|x t IH]; intros r H; cbn [items_to_ints] in H.
+  - now injection H as <-.
+  - destruct (match undec x with Some n => Ok n | None => _ end) as [n| | | |]; cbn [bind] in H; try discriminate.
+    destruct (items_to_ints tbl t) as [r'| | | |]; cbn [bind] in H; try discriminate.
+    injection H as <-. cbn. f_equal. now apply IH.
+Qed.
+
+Lemma parse_port_documented pl c toks : documented (parse_port pl c toks).
+Proof.
+  unfold parse_port. destruct toks as [|o items]; [exact I|].
+  destruct (pop_of_string o) as [op|]; [|exact I]. destruct items as [|i0 it]; [exact I|].
+  pose proof (items_to_ints_documented (ctx_table c) (i0 :: it)) as D.
+  destruct (items_to_ints (ctx_table c) (i0 :: it)) as [ints| | | |k] eqn:E; cbn [bind]; try exact I; [|exact D].
+  set (n := length ints).
+  destruct op; cbn [items_to_ports].
+  - destruct (ctx_platform_single pl && negb (Nat.eqb n 1)); exact I.
+  - destruct (negb (Nat.eqb n 1)) eqn:B; [exact I|]. apply negb_false_iff, Nat.eqb_eq in B.
+    assert (L : length (sortN ints) = 1%nat) by (rewrite sortN_length; exact B).
+    destruct (sortN ints) as [|x [|? ?]]; try discriminate. exact I.
+  - destruct (negb (Nat.eqb n 1)) eqn:B; [exact I|]. apply negb_false_iff, Nat.eqb_eq in B.
+    assert (L : length (sortN ints) = 1%nat) by (rewrite sortN_length; exact B).
+    destruct (sortN ints) as [|x [|? ?]]; try discriminate. exact I.
+  - destruct (ctx_platform_single pl && negb (Nat.eqb n 1)); exact I.
+  - destruct (negb (Nat.eqb n 2)) eqn:B; [exact I|]. apply negb_false_iff, Nat.eqb_eq in B.
+    assert (L : length (sortN ints) = 2%nat) by (rewrite sortN_length; exact B).
+    destruct (sortN ints) as [|x [|y [|? ?]]]; try discriminate. exact I.
+Qed.
+
+Lemma new_wild_documented limit a m : documented (new_wild limit a m).
+Proof. unfold new_wild, set_line. destruct (valid_limit limit); [|exact I]. destruct (Nat.ltb _ _); exact I. Qed.
+
+Lemma addr_of_spelling_documented pl limit sp : documented (addr_of_spelling pl limit sp).
+Proof.
+  destruct sp; cbn [addr_of_spelling]; try exact I.
+  - apply bind_documented; [apply new_wild_documented|intros; exact I].
+  - apply bind_documented; [apply new_wild_documented|intros; exact I].
+  - destruct (Nat.ltb W len); [exact I|]. apply bind_documented; [apply new_wild_documented|intros; exact I].
+  - apply bind_documented; [apply new_wild_documented|intros; exact I].
+Qed.
+
+Lemma parse_address_text_documented pl limit line : documented (parse_address_text pl limit line).
+Proof.
+  unfold parse_address_text. apply bind_documented; [|intros; apply addr_of_spelling_documented].
+  unfold spelling_of_text.
+  destruct (String.eqb line "any"); [exact I|].
+  destruct (first_is_digit line && str_contains_char "/" line).
+  { unfold parse_prefix_text. destruct (split_char "/" line) as [|a [|m [|? ?]]]; try exact I.
+    destruct (parse_ip a); [|exact I]. destruct (parse_masklen m); exact I. }
+  destruct (first_is_digit line && str_contains_char " " line).
+  { destruct (split_ws line) as [|a [|m [|? ?]]]; try exact I. destruct (parse_ip a), (parse_ip m); exact I. }
+  destruct (starts_with "host " line || is_octets line).
+  { destruct (find_octets line) as [t|]; [|exact I]. destruct (parse_ip t); exact I. }
+  destruct (starts_with (group_cmd pl) line); [|exact I].
+  destruct (starts_with _ line); [|exact I]. destruct (check_name _); exact I.
+Qed.
+
+Theorem parse_ace_text_documented c line : documented (parse_ace_text c line).
+Proof.
+  unfold parse_ace_text.
+  assert (B : forall ext sp dport opts,
+    documented
+      (if negb (str_nonempty (s_proto sp)) && match s_sport sp, dport with [], [] => true | _, _ => false end
+       then VErr
+       else if String.eqb (s_proto sp) "ip" && match s_sport sp, dport with [], [] => false | _, _ => true end
+       then VErr
+       else
+         do src <- parse_address_text (plat c) (Z.of_nat (max_ncwb c)) (s_src sp);
+         do dst <- parse_address_text (plat c) (Z.of_nat (max_ncwb c)) (s_dst sp);
+         do pr <- parse_proto (s_proto sp);
+         do p1 <- parse_port (plat c) (proto_ctx (plat c) (is15 c) pr) (s_sport sp);
+         do p2 <- parse_port (plat c) (proto_ctx (plat c) (is15 c) pr) dport;
+         do o <- parse_option opts;
+         Ok (mkTace ext (seq_of (s_seq sp))
+               (mkAce (String.eqb (s_action sp) "permit") pr src dst p1 p2 (fst o) (snd o)) opts))).
+  { intros ext sp dport opts. destruct (_ && _); [exact I|]. destruct (_ && _); [exact I|].
+    apply bind_documented; [apply parse_address_text_documented|intros src].
+    apply bind_documented; [apply parse_address_text_documented|intros dst].
+    apply bind_documented.
+    { unfold parse_proto. destruct (String.eqb _ ""); [exact I|]. destruct (undec _).
+      - destruct (N.leb _ 255); exact I.
+      - destruct (assoc_str _ _); exact I. }
+    intros pr. apply bind_documented; [apply parse_port_documented|intros p1].
+    apply bind_documented; [apply parse_port_documented|intros p2].
+    apply bind_documented; [|intros; exact I]. unfold parse_option. destruct (forallb _ _); exact I. }
+  destruct (parse_ace_extended (split_ws line)) as [sp|].
+  { exact (B true sp (fst (split_dstport_option (s_dstopt sp))) (snd (split_dstport_option (s_dstopt sp)))). }
+  destruct (parse_ace_standard (split_ws line)) as [sp|]; [|exact I].
+  exact (B false sp [] (s_dstopt sp)).
+Qed.
